@@ -91,7 +91,7 @@ func verifC10Bad(x string, b *ast.BadNode) {
 		l2.nextToken(true)
 		if l2.Token.Kind == token.TokenEOF {
 			if i != len(want) {
-				verifFail("C10/sql-relex", "fewer tokens")
+				verifFail("C10/sql-relex", "fewer tokens: missing "+string(want[i].Kind)+" rawlen="+verifItoa(len(want[i].Raw)))
 			}
 			break
 		}
